@@ -5,6 +5,8 @@ package main
 
 import (
 	"fmt"
+	"os"
+	"strings"
 )
 
 func (g *Gen) dataOp(c int) Op {
@@ -59,7 +61,6 @@ func (g *Gen) typedWrite(c int, k string) Op {
 			[]string{"EXPIREAT", k, "4102444800"}, []string{"PEXPIRE", k, "0"}, []string{"TTL", k}, []string{"EXPIRE", "nokey", "10"})
 	}
 }
-
 
 // C10: every write command against a key of the type it suits, whose content is known, as the ONLY
 // thing that happens between WATCH and EXEC — including writes that leave the value as it was
@@ -122,6 +123,12 @@ func c10Table() []watchCase {
 		[]string{"APPEND", "k", ""}, []string{"APPEND", "k", "x"}, []string{"SETRANGE", "k", "0", ""}, []string{"SETRANGE", "k", "0", "h"}, []string{"SETRANGE", "k", "1", "E"},
 		[]string{"SETBIT", "k", "1", "1"}, []string{"SETBIT", "k", "0", "1"}, []string{"SETBIT", "k", "100", "0"}, []string{"BITFIELD", "k", "SET", "u8", "0", "104"},
 		[]string{"BITFIELD", "k", "SET", "u8", "0", "1"}, []string{"BITFIELD", "k", "INCRBY", "u8", "0", "0"}, []string{"BITFIELD", "k", "GET", "u8", "0"},
+		[]string{"BITFIELD", "k", "OVERFLOW", "FAIL", "INCRBY", "u8", "0", "200"}, []string{"BITFIELD", "k", "OVERFLOW", "FAIL", "SET", "i4", "0", "13"},
+		[]string{"BITFIELD", "k", "OVERFLOW", "FAIL", "INCRBY", "u8", "0", "200", "GET", "u8", "8"}, []string{"BITFIELD", "k", "OVERFLOW", "FAIL", "INCRBY", "u8", "0", "200", "INCRBY", "u8", "8", "1"},
+		[]string{"BITFIELD", "k", "OVERFLOW", "SAT", "INCRBY", "u8", "0", "200"}, []string{"BITFIELD_RO", "k", "GET", "u8", "0"}, []string{"SETRANGE", "k", "1", "ello"}, []string{"SETBIT", "k", "1", "1"},
+		[]string{"GETRANGE", "k", "0", "-1"}, []string{"STRLEN", "k"}, []string{"LCS", "k", "k"}, []string{"BITCOUNT", "k"}, []string{"BITPOS", "k", "1"}, []string{"GETBIT", "k", "3"},
+		[]string{"EXISTS", "k"}, []string{"TYPE", "k"}, []string{"TTL", "k"}, []string{"SORT", "k"}, []string{"SCAN", "0"}, []string{"KEYS", "*"}, []string{"RANDOMKEY"},
+		[]string{"INCR", "k"}, []string{"LPUSH", "k", "x"}, []string{"SETRANGE", "k", "-1", "x"}, []string{"SETBIT", "k", "0", "2"}, []string{"EXPIRE", "k", "abc"}, []string{"RENAME", "nokey", "k"}, []string{"COPY", "nokey", "k"},
 		[]string{"MSET", "k", "hello"}, []string{"MSET", "o", "1", "k", "2"}, []string{"MSETNX", "k", "1", "o", "2"}, []string{"GETEX", "k"}, []string{"GETEX", "k", "PERSIST"},
 		[]string{"GETEX", "k", "EX", "100"}, []string{"INCR", "k"}, []string{"LPUSH", "k", "x"}, []string{"HSET", "k", "f", "v"}, []string{"SADD", "k", "m"},
 		[]string{"DEL", "k"}, []string{"UNLINK", "k"}, []string{"TOUCH", "k"}, []string{"RENAME", "k", "k"}, []string{"COPY", "k", "k"}, []string{"BITOP", "NOT", "k", "k"},
@@ -457,6 +464,17 @@ func init() {
 					ops = append(ops, g.dataOp(c))
 				}
 			}
+			if g.chance(0.3) {
+				// a key watched in database x; EXEC is issued after SELECT y; another connection writes the SAME NAME
+				// in x (must abort) or in y (must not)
+				c, d := 1, 2
+				x, y := g.pick("0", "1", "2"), g.pick("0", "1", "2", "3")
+				wk := g.key()
+				ops = append(ops, mkOp(c, "DISCARD"), mkOp(c, "UNWATCH"), mkOp(c, "SELECT", x), mkOp(c, "WATCH", wk), mkOp(c, "SELECT", y))
+				ops = append(ops, mkOp(d, "DISCARD"), mkOp(d, "SELECT", g.pick(x, y, y)))
+				ops = append(ops, mkOp(d, [][]string{{"SET", wk, "w"}, {"DEL", wk}, {"APPEND", wk, "w"}, {"RPUSH", wk + "x", "e"}}[g.r.Intn(4)]...))
+				ops = append(ops, mkOp(c, "MULTI"), mkOp(c, "SET", "txmark", "1"), mkOp(c, "EXEC"), mkOp(c, "GET", "txmark"), mkOp(c, "DEL", "txmark"))
+			}
 			if g.chance(0.35) {
 				// one transaction that walks through several databases: every queued command runs in the
 				// database selected by the queued SELECTs before it, and the connection ends in the last one
@@ -486,7 +504,17 @@ func init() {
 	}
 
 	// C15: the same commands on a RESP3 connection (1) and a RESP2 connection (2)
+	specialReplay["C15"] = true
 	streams["C15"] = func(cfg runCfg, res *Result) error {
+		if cfg.replay != "" {
+			if raw, err := os.ReadFile(cfg.replay); err == nil && strings.Contains(string(raw), "\"kind\": \"twin\"") {
+				return runC15Twin(cfg, res)
+			}
+			return replayFile(cfg, res)
+		}
+		if err := runC15Twin(cfg, res); err != nil {
+			return err
+		}
 		g := newGen(cfg.seed)
 		n := 150
 		if cfg.tier == "thorough" {
@@ -581,6 +609,14 @@ func init() {
 				o := g.dataOp(1)
 				if g.chance(0.25) {
 					o = mkOp(1, catalog[g.pick("ttl", "persist", "expire", "pexpire", "getex", "set", "append", "rename", "copy", "keys", "randomkey", "scan", "del", "type")](g)...)
+				}
+				if g.chance(0.15) {
+					// the iteration commands and the filters of SCAN see the same keyspace as everybody else
+					k := g.key()
+					o = [](Op){mkOp(1, "SCAN", "0", "COUNT", "1000", "TYPE", g.pick("string", "list", "hash", "set")), mkOp(1, "SCAN", "0", "MATCH", "k*", "COUNT", "1000"),
+						mkOp(1, "SCAN", "0", "COUNT", "1000", "MATCH", "*", "TYPE", g.pick("string", "list", "hash", "set")), mkOp(1, "HSCAN", k, "0", "COUNT", "1000"), mkOp(1, "SSCAN", k, "0", "COUNT", "1000"),
+						mkOp(1, "HSCAN", k, "0", "MATCH", "*"), mkOp(1, "SSCAN", k, "0"), mkOp(1, "HRANDFIELD", k, "5"), mkOp(1, "SRANDMEMBER", k, "5"), mkOp(1, "HGETALL", k), mkOp(1, "SMEMBERS", k),
+						mkOp(1, "SINTERCARD", "1", k), mkOp(1, "HSTRLEN", k, "f1"), mkOp(1, "LPOS", k, "a"), mkOp(1, "SMISMEMBER", k, "a", "b"), mkOp(1, "HMGET", k, "f1", "f2")}[g.r.Intn(16)]
 				}
 				if g.chance(0.12) {
 					// SORT reads its source, its weights and its GET targets through the same expiry
